@@ -301,6 +301,27 @@ func (e *e6Ctx) effects(isObj func(ssa.Value) bool, depth int) ([]string, map[st
 			}
 		}
 	}
+	// preconditions that only apply under a condition (if a && b { return err }): the guard set of later blocks does not
+	// contain them (the blocks are also reached with a false), so they are stated here with their own condition
+	for _, b := range f.Blocks {
+		iff := ifOf(b)
+		if iff == nil {
+			continue
+		}
+		okEdge, is := e.errorGuard(iff)
+		if !is {
+			continue
+		}
+		cs := e.conds(b, pre)
+		if cs == "" {
+			continue
+		}
+		// the failing combination as a sorted conjunction: `if a && b` and `if b && a` read the same
+		conj := strings.Split(strings.TrimSuffix(strings.TrimPrefix(strings.TrimSpace(cs), "[if "), "]"), " && ")
+		conj = append(conj, canonCond(e.path(iff.Cond), okEdge != 0))
+		sort.Strings(conj)
+		lines = append(lines, "requires not("+strings.Join(dedupe(conj), " && ")+")")
+	}
 	// a guard that repeats a precondition says nothing: `if err == nil { log }` after the error return is the call
 	for i, l := range lines {
 		if !strings.HasPrefix(l, "[if ") {
